@@ -83,6 +83,8 @@ def owner_of(tag, events, idx):
         # termination/fail-fast (C04), a timeout return is about timeouts (C12), otherwise about routing (C01)
         j = idx - 1
         while j >= 0 and events[j].get("ev") != "Reset":
+            if events[j].get("ev") == "DrvOp" and events[j].get("k") == "unbind":
+                return "C04"            # what follows an Unbind is about closing the connection
             if events[j].get("ev") in FAULT_EVENTS:
                 if "alias" in events[j]:
                     # what follows a response under an out-of-range message ID that aliases a live one is routing's business
